@@ -253,7 +253,14 @@ FaultyAll == {WithFault(Basic, r, 1, h) : r \in {"r1", "r2", "r3"}, h \in Hows}
      \cup {WithFault(Inits, r, at, h) : r \in {"r2", "r3", "r4"}, at \in {1, 2}, h \in Hows}
      \cup {WithFault(Diamond2, "r1", at, "err") : at \in {1, 2, 3}}
      \cup {WithFault(Optional, "r2", at, "err") : at \in {1, 2}}
-Faulty == Sane(FaultyAll)
+\* three singletons in a chain + a scoped consumer; a constructor cancels the context given to BuildWithContext
+SingChain == C("singchain", <<R("r1", SG, 0, "a", "ctorerr", FALSE, <<>>),
+                              R("r2", SG, 1, "a", "ctorerr", FALSE, <<P("S0")>>),
+                              R("r3", SG, 2, "a", "ctorerr", FALSE, <<P("S1")>>),
+                              R("r4", SC, 3, "a", "ctorerr", FALSE, <<P("S2")>>)>>)
+CancelFaulty == {WithFault(SingChain, r, 1, "cancel") : r \in {"r1", "r2", "r3"}}
+           \cup {WithFault(Multi, "r1", 1, "cancel"), WithFault(GroupDeps, "r1", 1, "cancel"), WithFault(GroupDeps, "r3", 1, "cancel")}
+Faulty == Sane(FaultyAll) \cup CancelFaulty
 NilFaulty == {WithFault(Basic, r, 1, "nil") : r \in {"r1", "r2", "r3"}}
 
 CloseErrs == {WithCloseErr(Basic, ce) : ce \in {<<"r1">>, <<"r2">>, <<"r3">>, <<"r1", "r2">>, <<"r2", "r3">>, <<"r1", "r2", "r3">>}}
